@@ -179,7 +179,11 @@ func (e *Engine) runInner(st *State) (again bool) {
 		e.Stats.Instrs++
 		st.snapNondet, st.snapFresh, st.snapObj, st.snapLog, st.snapFacets, st.snapEnv = th.NNondet, st.NFresh, st.NextObj, st.Log, st.Facets, st.EnvChoices
 		if st.Steps > e.Cfg.MaxSteps {
-			e.inconclusive("instruction budget exceeded (unwinding failure) at %s", e.where(th))
+			if e.Cfg.BudgetViolation {
+				e.reportViolation(st, "no-progress-loop", "instruction budget exhausted (loop without consuming input?) at "+e.where(th), nil)
+			} else {
+				e.inconclusive("instruction budget exceeded (unwinding failure) at %s", e.where(th))
+			}
 			st.Dead = true
 			return false
 		}
